@@ -12,7 +12,9 @@
      redef <0|1>              MIR_set_func_redef_permission
      link <null|interp|gen|lazy> <names|->   MIR_link; resolver knows exactly <names>, value 200+(c-'a')
      call                     call the entry function of every module whose interface is installed
-   stdout: one line per operation.  A history ends at its first `err <MIR_error_type_t name>`.
+     (resolver argument of link: `-` = a resolver that returns NULL for everything, `0` = no resolver)
+   stdout: one line per operation.  A history ends at its first `err <MIR_error_type_t name>`, except
+   that it goes on after a failed link (MIR_undeclared_op_ref_error).
    Each history runs in a forked child with a fresh MIR context. */
 #include <stdio.h>
 #include <stdlib.h>
@@ -38,7 +40,7 @@ static const char *err_names[] = {
   "MIR_ctx_change_error"};
 
 static jmp_buf err_jmp;
-static volatile int last_err;
+static volatile int last_err, cur_is_link;
 static void MIR_NO_RETURN err_func (MIR_error_type_t t, const char *fmt, ...) {
   (void) fmt;
   last_err = (int) t;
@@ -233,8 +235,10 @@ static void do_link (const char *iface, const char *names) {
   else if (strcmp (iface, "gen") == 0) set = MIR_set_gen_interface;
   else if (strcmp (iface, "lazy") == 0) set = MIR_set_lazy_gen_interface;
   else if (strcmp (iface, "null") != 0) { printf ("bad iface\n"); fflush (stdout); _exit (3); }
-  strncpy (resolvable, strcmp (names, "-") == 0 ? "" : names, sizeof (resolvable) - 1);
-  MIR_link (ctx, set, resolver);
+  strncpy (resolvable, strcmp (names, "-") == 0 || strcmp (names, "0") == 0 ? "" : names,
+           sizeof (resolvable) - 1);
+  resolvable[sizeof (resolvable) - 1] = 0;
+  MIR_link (ctx, set, strcmp (names, "0") == 0 ? NULL : resolver); /* "0": no resolver at all */
   if (set != NULL)
     for (int i = 0; i < n_mods; i++) mods[i].done = 1;
   printf ("ok");
@@ -286,7 +290,7 @@ static void run_history (char **lines, int n) {
   ctx = MIR_init ();
   MIR_set_error_func (ctx, err_func);
   MIR_gen_init (ctx);
-  for (int li = 0; li < n; li++) {
+  for (volatile int li = 0; li < n; li++) {
     char *tok[64];
     int nt = 0;
     for (char *p = strtok (lines[li], " \t\r\n"); p != NULL && nt < 64; p = strtok (NULL, " \t\r\n"))
@@ -295,8 +299,11 @@ static void run_history (char **lines, int n) {
     if (setjmp (err_jmp)) {
       printf ("err %s\n", last_err >= 0 && last_err < 30 ? err_names[last_err] : "?");
       fflush (stdout);
+      /* a failed link is survivable (the caller may load the missing name and link again) */
+      if (cur_is_link && last_err == (int) MIR_undeclared_op_ref_error) continue;
       _exit (0);
     }
+    cur_is_link = strcmp (tok[0], "link") == 0;
     if (strcmp (tok[0], "load") == 0 && nt >= 2) do_load (atoi (tok[1]), nt - 2, tok + 2);
     else if (strcmp (tok[0], "ext") == 0 && nt == 3) {
       int c = tok[1][0], k = atoi (tok[2]) % 10;
